@@ -86,6 +86,11 @@ CHECKS = {
         text="Exploration: for generated struct types (embedding by value and pointer to depth 3, shadowing in either declaration order, genuine ambiguity, func-valued fields) and 20 catalogued environments (value/pointer-receiver methods, promoted methods, unexported fields and embedded structs, method/field clashes across depths, maps with methods, typed and untyped maps, nested members by value and pointer) every member name at every depth and near-miss names are tried as identifier, call, nested member and nested method call: accepted => runs on a fully populated value with the checker's type; Go-unambiguous exported member of a struct environment => accepted; docgen lists exactly the accepted top-level names.",
         note="Trusted: reflect's FieldByName/MethodByName as Go's rule; full population of generated values. Method names are exercised only as calls (a method used as a bare identifier is accepted by the checker but is not a value the VM can fetch - outside the roles the property lists).",
         ref="4/C16"),
+    "C17": dict(
+        technique="property-based testing (rapid), differential oracle: one generated tree printed in operator form (compiled with Operator options) and in explicit-call form (candidate chosen by an independent reference resolution rule), compared on value, failure and the log of functions called; enumeration of ill-formed overload tables",
+        text="Exploration: expression trees over an environment with eleven overload candidates (exact and interface parameters, methods and a func-valued field, several candidates fitting the same operand types) place overloaded operators nested in each other, under slices and indexes, in closure bodies, arguments, array literals and both branches, mixed with built-in uses of the same operators; the table is a drawn ordered subset per operator and changes from case to case within one process; operator form and call form must agree on struct and pointer environments, optimiser on and off. 32 ill-formed tables (missing, non-function, wrong arity, no result) must be rejected by Compile.",
+        note="Trusted: the static types of the mini-language are known by construction; the reference selection rule (first candidate in table order fitting exactly or through an implemented interface) is read off docs/Operator-Override.md. Open finding F19 (integer literal in a call argument re-typed) excluded and replayed.",
+        ref="4/C17"),
     "C18": dict(
         technique="property-based testing (rapid) with metamorphic oracles: twelve identities between separately compiled programs (and the single expression `(lhs) == (rhs)`), related by the harness; a static-type identity for nested closures via checker.Check",
         text="Exploration: generated arrays (environment arrays of every element type, literals, ranges, results of other builtins, slices, conditionals; empty/singleton/long) and generated predicates/mappers that themselves contain builtins (nesting to 3, thorough 5) instantiate all/any, none/any, one/count, count/filter, len-map, filter-as-mask, closure scoping (own element preserved across an inner builtin; innermost `#` ranges over the innermost collection, 2-3 levels, dynamically and in the checker's static type), in-range vs two-sided comparison (int/int64 operands), and slicing partitions (length, elementwise, strings); optimiser on and off, typed and untyped. No expected-value table and no reference evaluator.",
